@@ -31,14 +31,19 @@ LEVEL = "exploration"
 TECHNIQUE = "small-scope exhaustive enumeration of hostile header text against every parser and every Request attribute"
 DESIGN_REF = "DESIGN.md §4 C07"
 RULE = (
-    "inputs = every concatenation of <= k atoms (k = 3 quick; 4 standalone / 3 request thorough) over a base "
-    "alphabet of 38 latin-1 atoms without control characters (separators, quotes, '=', '*', '%', RFC 2231 markers, "
-    "base64, a date, digits, brackets, NBSP, high-bit bytes, lone UTF-8 lead byte) plus <= 6 sink-specific atoms "
-    "(e.g. 'x;k*=', 'bytes=', 'Basic ', ';q=', 'k=\"'); each input goes to each standalone parser and, as the value "
-    "of each client-controlled CGI variable, through every public Request attribute; pairs of hostile variables at "
-    "depth 1 (2 thorough), hostile content types x bodies, and ramps (atom / atom-pair x 64, 512, 4096). "
-    "non-trivial = distinct (call site family, input) whose input contains a non-alphanumeric character; "
-    "outcomes = distinct (call site, returned type | HTTP exception | other exception)."
+    "inputs = every concatenation of <= k atoms over a base alphabet of 38 latin-1 atoms without control characters "
+    "(separators, quotes, '=', '*', '%', RFC 2231 markers, base64, a date, digits, brackets, NBSP, superscript two, "
+    "high-bit bytes, lone UTF-8 lead byte) plus <= 6 sink-specific atoms (e.g. 'x;k*=', 'bytes=', 'Basic ', ';q=', "
+    "'k=\"'). (a) 24 standalone parsers, k = 3 (quick) / 4 (thorough), returned objects touched; (b) each of 31 "
+    "client-controlled CGI variables in turn on a real Request, every public attribute + 8 calls (64 sites) read: "
+    "quick = all sites for k <= 2 and, for the 8 variables Request parses with code of its own, the sites that can "
+    "see the variable (discovered by environ-lookup recording and by differential probing) for k = 3; thorough = all "
+    "sites for k <= 3 plus k = 4 on the dependent sites for Host / QUERY_STRING / PATH_INFO; a trusted_hosts "
+    "configuration for Host; (c) 7 pairs of hostile variables (1x1 atoms quick, 2x1 both ways thorough) and 23 "
+    "content types x 26 bodies x 6 Content-Length forms; (d) ramps: prefix + (atom | ordered pair of 12 structural "
+    "atoms | 17 patterns) x 64 / 4096 (+512 thorough; single characters also x 8192) through every parser and variable. "
+    "non-trivial = distinct (call site family, input) with a non-alphanumeric character (kept for <= 3 atoms); "
+    "outcomes = distinct (call site, returned | HTTP exception | other exception)."
 )
 ASSUMPTIONS = [
     "client-controlled variables are latin-1 strings without C0/C1 control characters and DEL (property domain); "
